@@ -156,6 +156,9 @@ func c15Judge(c spec.Case, evs []spec.Event, d *Death) CaseResult {
 				}
 				res.Counters["reattaches"]++
 			} else {
+				if !s.OK && (s.RetryOK || s.RetryProtocol != "") {
+					viol("refused-reattach-accepted-on-retry", fmt.Sprintf("%s was refused (%s) but the same client then reports Start err=%q Protocol()=%q", s.Step, trunc(s.Err, 60), s.RetryErr, s.RetryProtocol))
+				}
 				if s.OK {
 					viol("reattached-to-dead", "reattach succeeded although nothing is listening")
 				} else if !s.NotFound {
